@@ -366,6 +366,11 @@ func baseConstructor(typeName, structName string) string {
 		if structName != "" && base == structName {
 			return fmt.Sprintf("gozod.Lazy(func() gozod.ZodType[any] { return gozod.FromStruct[%s]() })", base)
 		}
+		if base == "time.Time" {
+			// *time.Time is validated like *string: the element's schema, and
+			// .Optional() from the caller when the field is not required.
+			return "gozod.Time()"
+		}
 		return fmt.Sprintf("gozod.FromStruct[%s]()", base)
 	}
 
